@@ -272,6 +272,7 @@ impl Property for C13 {
         stats.probe("without_validation", sc.val.is_none());
         stats.probe("print_some_with_validation", sc.val.is_some() && sc.print.is_some());
         stats.probe("tolerance_1", sc.val.is_some() && tol == 1);
+        stats.probe("tolerance_i32_max", sc.val.is_some() && sc.early_tol == i32::MAX);
         stats.probe("tolerance_ge_4", sc.val.is_some() && tol >= 4);
         stats.probe("budget_le_tolerance", sc.val.is_some() && budget <= tol);
         stats.probe("budget_ge_100", budget >= 100);
